@@ -223,8 +223,6 @@ def s_unpack_from(vc):
         # stopped without reading a terminator: only legitimate if the next octet is missing or a pointer (unsupported here)
         vc.ensure("no_terminator.parse_error", raised_is(out, SE()))
         vc.ensure("no_terminator.justified", Or(pos >= len_(buf), code_or(buf, pos) >= 192))
-    if vc.branch(And(pos < len_(buf), code_or(buf, pos) >= 192)) and last in (None, "label"):
-        vc.ensure("pointer.rejected", raised_is(out, SE()))
 
 
 @scenario("name.unpack", functions=[DN + "unpack"])
